@@ -1,3 +1,318 @@
+/-
+C15 — multiprecision reference values are rounded correctly to the target type.
+Only property statements, their proofs' top level, and non-vacuity examples live here.
+
+Vocabulary (Models/Mpf.lean, Lemmas/Mpf.lean):
+  `mpf2float f flush x prec rnd`  the port of `utils.mpf2float` (returns a bit pattern or an exception kind);
+                                  `prec = none`, `rnd = .n` is the call made by the backend (`mptonp`)
+  `.fin s man exp`                the mpf value (-1)^s · man · 2^exp, `man` of ANY bit length
+                                  (so "every precision ≥ p" is "every man")
+  `roundBits f man exp`           magnitude bit pattern of IEEE round-to-nearest-even of man·2^exp in format f
+                                  (`roundV_nearest`, `roundV_tie_even`, `roundV_canonical`, `decode_pack` say so)
+  `Valid f`                       2 ≤ p ≤ 53, 2 ≤ ew, p ≤ 2^(ew-1); float16/32/64 are instances (`formats_valid`)
+  `dyLe m1 e1 m2 e2`              m1·2^e1 ≤ m2·2^e2 on exact values;  `dyLt` likewise
+  `top p man exp`                 exponent with RNE_p(man·2^exp) ∈ [2^(top-1), 2^top)  (RNE_p: to p bits, unbounded exponent)
+  `q1 p man`                      the p-bit nearest-even significand of man
+-/
 import FAVerif.Lemmas.Mpf
+
 namespace FAVerif.Props.C15
+open FAVerif.FP FAVerif.Mpf
+
+/-- float16, float32 and float64 satisfy the format hypotheses of every theorem below. -/
+theorem formats_valid : Valid binary16 ∧ Valid binary32 ∧ Valid binary64 := ⟨valid16, valid32, valid64⟩
+
+/-- **mpf2float_normal**: for every format, sign, mantissa (any length) and exponent: if the
+round-to-nearest-even of the exact value is at least the smallest normal number (a normal number, or
+infinity past the overflow threshold), `mpf2float` without flushing returns exactly it, sign included.
+This includes values slightly BELOW the smallest normal that round up to it. -/
+theorem mpf2float_normal {f : Fmt} (v : Valid f) (flush : PyVal) (hfl : flush.truthy = false) (s : Bool)
+    (man : Nat) (exp : Int) (hn : f.minNormalBits ≤ roundBits f man exp) :
+    mpf2float f flush (.fin s man exp) none .n = .bits (signBits f s + roundBits f man exp) := by
+  by_cases hm : man = 0
+  · subst hm
+    have h0 : roundBits f 0 exp = 0 := by simp [roundBits, roundV, pack]
+    have h1 : 0 < f.minNormalBits := Nat.two_pow_pos _
+    omega
+  · exact normal' v flush hfl s hm exp hn
+
+/-- **mpf2float_ge_min_normal**: for every flush setting, every value of magnitude at least the smallest
+normal (`bitlen man + exp ≥ minexp`, i.e. `man·2^exp ≥ 2^(minexp-1)`) is converted by a single correct
+rounding — to a normal number or, past the threshold, to infinity. -/
+theorem mpf2float_ge_min_normal {f : Fmt} (v : Valid f) (flush : PyVal) (s : Bool) (man : Nat) (hm : man ≠ 0) (exp : Int)
+    (h : minexp f ≤ (bitlen man : Int) + exp) :
+    mpf2float f flush (.fin s man exp) none .n = .bits (signBits f s + roundBits f man exp) :=
+  ge_min_normal' v flush s hm exp h
+
+/-- **overflow**: every value `≥ (2^(p+1)-1)·2^(emaxUlp-1)` = largest finite + half an ulp gives the signed
+infinity (every flush setting) … -/
+theorem overflow {f : Fmt} (v : Valid f) (flush : PyVal) (s : Bool) (man : Nat) (hm : man ≠ 0) (exp : Int)
+    (h : dyLe (2 ^ (f.p + 1) - 1) (f.emaxUlp - 1) man exp) :
+    mpf2float f flush (.fin s man exp) none .n = .bits (signBits f s + f.infBits) :=
+  overflow' v flush s hm exp h
+
+/-- … and nothing below that threshold does (the threshold is exact). -/
+theorem overflow_iff {f : Fmt} (v : Valid f) (flush : PyVal) (s : Bool) (man : Nat) (hm : man ≠ 0) (exp : Int) :
+    mpf2float f flush (.fin s man exp) none .n = .bits (signBits f s + f.infBits) ↔
+      dyLe (2 ^ (f.p + 1) - 1) (f.emaxUlp - 1) man exp :=
+  overflow_iff' v flush s hm exp
+
+/-- **tiny**: below half the smallest subnormal (`man·2^exp < 2^(emin-1)`) the result is the signed zero. -/
+theorem tiny {f : Fmt} (v : Valid f) (flush : PyVal) (s : Bool) (man : Nat) (hm : man ≠ 0) (exp : Int)
+    (h : dyLt man exp 1 (f.emin - 1)) :
+    mpf2float f flush (.fin s man exp) none .n = .bits (signBits f s) :=
+  tiny' v flush s hm exp h
+
+/-- **zero_iff** (what holds precisely near zero, no flushing): the result is the signed zero exactly for
+`man·2^exp < (2^(p+1)-1)·2^(emin-p-1) = 2^emin·(1 - 2^-(p+1))`, i.e. when the p-bit rounding is still
+below the smallest subnormal.  (IEEE would return the smallest subnormal above `2^(emin-1)`: a
+permitted deviation, `subnormal_sliver_witness`.) -/
+theorem zero_iff {f : Fmt} (v : Valid f) (flush : PyVal) (hfl : flush.truthy = false) (s : Bool) (man : Nat) (hm : man ≠ 0)
+    (exp : Int) :
+    mpf2float f flush (.fin s man exp) none .n = .bits (signBits f s) ↔
+      dyLt man exp (2 ^ (f.p + 1) - 1) (f.emin - f.p - 1) :=
+  zero_iff' v flush hfl s hm exp
+
+/-- **two_step** (the complete description): `mpf2float` is the signed zero when the p-bit rounding
+RNE_p(x) is below `2^(zexp-1)` (zexp = `float_minexp` when flushing, `float_subexp` otherwise), and
+otherwise the correct rounding into the format of RNE_p(x) — not of x. -/
+theorem two_step {f : Fmt} (v : Valid f) (flush : PyVal) (s : Bool) (man : Nat) (hm : man ≠ 0) (exp : Int) :
+    mpf2float f flush (.fin s man exp) none .n =
+      if top f.p man exp < (if flush.truthy then minexp f else subexp f) then .bits (signBits f s)
+      else .bits (signBits f s + roundBits f (q1 f.p man) (exp + ((bitlen man - f.p : Nat) : Int))) :=
+  two_step'' v flush s hm exp
+
+/-- **representable_exact**: a value with at most p significant bits and magnitude at least the smallest
+subnormal is rounded once, correctly, also into the subnormal range (so subnormal floats that went
+through `float2mpf` come back unchanged: `identity`). -/
+theorem representable_exact {f : Fmt} (v : Valid f) (flush : PyVal) (hfl : flush.truthy = false) (s : Bool) (man : Nat)
+    (hm : man ≠ 0) (exp : Int) (hs : bitlen man ≤ f.p) (h : subexp f ≤ (bitlen man : Int) + exp) :
+    mpf2float f flush (.fin s man exp) none .n = .bits (signBits f s + roundBits f man exp) :=
+  representable' v flush hfl s hm exp hs h
+
+/-- **loop_dead**: with the default precision the `while man > largest` loop never shifts, `dtype(man)` is
+exact, and `ldexp` never overflows once the overflow test passed: the inf-retry loop is unreachable. -/
+theorem loop_dead {f : Fmt} (v : Valid f) (s : Bool) (man : Nat) (hm : man ≠ 0) (exp : Int) :
+    shiftLoop (largest f) (normalize s man exp f.p .n).man (normalize s man exp f.p .n).exp
+        = ((normalize s man exp f.p .n).man, (normalize s man exp f.p .n).exp) ∧
+    convInt f (normalize s man exp f.p .n).man = some (.fin (normalize s man exp f.p .n).man 0) ∧
+    ((normalize s man exp f.p .n).exp + ((normalize s man exp f.p .n).bc : Int) ≤ maxexp f →
+      ldexpV f (.fin (normalize s man exp f.p .n).man 0) (normalize s man exp f.p .n).exp ≠ .inf) :=
+  loop_dead' v s hm exp
+
+/-! ### flushing
+
+Full statement of DESIGN `C15.flush` — "with flush_subnormals=True anything below the smallest normal → ±0":
+  `∀ man exp, dyLt man exp 1 (minexp f - 1) → mpf2float f .true (.fin s man exp) none .n = .bits (signBits f s)`
+is FALSE of the code as written (`flush_edge_witness`): values in
+`[2^(minexp-1)·(1 - 2^-(p+1)), 2^(minexp-1))` round at p bits to the smallest normal and are kept.  This
+agrees with the first clause of the property (their nearest representable value is the smallest normal,
+a normal number), so it is recorded as an imprecision of the DESIGN statement, not as a finding. -/
+
+/-- **flush_eq**: flushing changes nothing but this: when RNE_p(x) is below the smallest normal the result
+is the signed zero. -/
+theorem flush_eq {f : Fmt} (v : Valid f) (flush : PyVal) (hfl : flush.truthy = true) (s : Bool) (man : Nat) (hm : man ≠ 0)
+    (exp : Int) :
+    mpf2float f flush (.fin s man exp) none .n =
+      if top f.p man exp < minexp f then .bits (signBits f s) else mpf2float f .false (.fin s man exp) none .n :=
+  flush_eq' v flush hfl s hm exp
+
+/-- **flush_partial**: with flushing, every `man·2^exp < (2^(p+1)-1)·2^(emin-2)` = smallest normal ·
+`(1 - 2^-(p+1))` gives the signed zero; the condition is exact (`flush_threshold`). -/
+theorem flush_partial {f : Fmt} (v : Valid f) (flush : PyVal) (hfl : flush.truthy = true) (s : Bool) (man : Nat) (hm : man ≠ 0)
+    (exp : Int) (h : dyLt man exp (2 ^ (f.p + 1) - 1) (f.emin - 2)) :
+    mpf2float f flush (.fin s man exp) none .n = .bits (signBits f s) := by
+  rw [flush_eq v flush hfl s man hm exp, if_pos ((flush_iff v hm exp).2 h)]
+
+theorem flush_threshold {f : Fmt} (v : Valid f) (man : Nat) (hm : man ≠ 0) (exp : Int) :
+    top f.p man exp < minexp f ↔ dyLt man exp (2 ^ (f.p + 1) - 1) (f.emin - 2) :=
+  flush_iff v hm exp
+
+/-- Negation witness for the full flush statement (float32): `x = (2^25-1)·2^-151 < 2^-126` (smallest
+normal) and yet `mpf2float(flush_subnormals=True)` returns the smallest normal `0x00800000`. -/
+theorem flush_edge_witness :
+    dyLt (2 ^ 25 - 1) (-151) 1 (minexp binary32 - 1) ∧
+    mpf2float binary32 .true (.fin false (2 ^ 25 - 1) (-151)) none .n = .bits 0x00800000 := by
+  decide +kernel
+
+/-- `mpf2float_normal` does not extend to flushing: float32 `x = (2^24-1)·2^-150` rounds (ties-to-even) to the
+smallest normal, but with flushing the result is +0.  With flushing the correct-rounding statement is
+`mpf2float_ge_min_normal` (hypothesis `x ≥` smallest normal). -/
+theorem normal_flush_witness :
+    roundBits binary32 (2 ^ 24 - 1) (-150) = binary32.minNormalBits ∧
+    mpf2float binary32 .true (.fin false (2 ^ 24 - 1) (-150)) none .n = .bits 0 := by
+  decide +kernel
+
+/-! ### subnormal results: double rounding (permitted by the property, stated precisely)
+
+By `two_step` a subnormal result is RNE_fmt(RNE_p(x)), or zero when RNE_p(x) < 2^emin.  It equals
+RNE_fmt(x) whenever x has at most p bits (`representable_exact`) but not in general: -/
+
+/-- float32, `x = (5·2^29+1)·2^-179 = (2.5 + 2^-30)·2^-149`: IEEE gives the subnormal 3 (above the tie),
+`mpf2float` first rounds to 24 bits (2.5, a tie) and then to even: 2. -/
+theorem subnormal_double_rounding_witness :
+    roundBits binary32 (5 * 2 ^ 29 + 1) (-179) = 3 ∧
+    mpf2float binary32 .false (.fin false (5 * 2 ^ 29 + 1) (-179)) none .n = .bits 2 := by
+  decide +kernel
+
+/-- float32, `x = -3·2^-151 = -0.75·2^-149`: IEEE gives the smallest subnormal, `mpf2float` gives -0. -/
+theorem subnormal_sliver_witness :
+    roundBits binary32 3 (-151) = 1 ∧
+    mpf2float binary32 .false (.fin true 3 (-151)) none .n = .bits 0x80000000 := by
+  decide +kernel
+
+/-! ### flag plumbing of `vectorize_with_mpmath.__init__`
+
+Full statement of DESIGN `C15.plumbing` — "the effective flush setting equals the requested one and is
+False when unspecified":
+  `∀ kw, effectiveFlush kw .false = requestedFlush kw .false`
+is FALSE of the code as written: the conditional `flush_subnormals if flush_subnormals is UNSPECIFIED else
+default_flush_subnormals` has its branches the wrong way round.  KNOWN FINDING (known_findings.json). -/
+
+/-- **plumbing_actual**: what the code does — an absent/UNSPECIFIED keyword stores the truthy singleton
+(⇒ flushing), any explicit value stores the module default. -/
+theorem plumbing_actual (kw : Option PyVal) (dflt : PyVal) :
+    effectiveFlush kw dflt =
+      match kw with
+      | none => true
+      | some v => if v.isUnspecified then true else dflt.truthy := by
+  cases kw with
+  | none => rfl
+  | some v => cases v <;> rfl
+
+/-- **plumbing_partial**: effective = requested exactly for explicit falsy values (with the module default
+`False`): `False`, `None`, `0`. -/
+theorem plumbing_partial (v : PyVal) (h1 : v.isUnspecified = false) (h2 : v.truthy = false) :
+    effectiveFlush (some v) .false = requestedFlush (some v) .false := by
+  cases v <;> simp_all [effectiveFlush, requestedFlush, initFlush, PyVal.isUnspecified, PyVal.truthy]
+
+/-- Negation witnesses: unspecified ⇒ flushes although `False` is requested; … -/
+theorem plumbing_neg_unspecified :
+    effectiveFlush none .false = true ∧ requestedFlush none .false = false ∧
+    effectiveFlush (some .unspecified) .false = true ∧ requestedFlush (some .unspecified) .false = false := by
+  decide
+
+/-- … `flush_subnormals=True` ⇒ stored `False`, no flushing. -/
+theorem plumbing_neg_true :
+    initFlush (some .true) .false = .false ∧ effectiveFlush (some .true) .false = false ∧
+    requestedFlush (some .true) .false = true := by
+  decide
+
+/-- End-to-end negation witness, replayed on the real code (corpus/C15): the identity function through
+`vectorize_with_mpmath` on float32 1e-40 (`0x000116C2`, subnormal): unspecified → +0.0 (input lost),
+`flush_subnormals=True` → returned unchanged (not flushed), `False` → unchanged. -/
+theorem identity_flush_neg_witness :
+    call binary32 none .false 0 1 0 .id 0x000116C2 0 = some (.bits 0) ∧
+    call binary32 (some .true) .false 0 1 0 .id 0x000116C2 0 = some (.bits 0x000116C2) ∧
+    call binary32 (some .false) .false 0 1 0 .id 0x000116C2 0 = some (.bits 0x000116C2) := by
+  decide +kernel
+
+/-- **work_prec**: with non-negative settings the working precision inside the call is
+`p + trunc(p·mult) + extra_prec ≥ p` (so the backend result is an mpf "of precision ≥ p"). -/
+theorem work_prec (p : Nat) (mnum : Int) (mden : Nat) (extra : Int) (h : 0 ≤ extraPrec p mnum mden extra) :
+    (workPrec p mnum mden extra : Int) = max 1 ((p : Int) + (Int.tdiv ((p : Int) * mnum) mden + extra)) ∧
+    p ≤ workPrec p mnum mden extra := by
+  unfold workPrec
+  unfold extraPrec at *
+  omega
+
+/-- **specials**: NaN, the infinities and zero (mpmath has a single zero: the result is +0). -/
+theorem specials (f : Fmt) (flush : PyVal) (prec : Option Nat) (rnd : Rnd) (s : Bool) (exp : Int) :
+    mpf2float f flush .nan prec rnd = .bits (nanBits f) ∧
+    mpf2float f flush (.inf s) prec rnd = .bits (signBits f s + f.infBits) ∧
+    (Valid f → mpf2float f flush (.fin s 0 exp) none .n = .bits 0) :=
+  ⟨rfl, rfl, fun v => zero' v flush s exp⟩
+
+/-- **tables**: the model's formulas give the literal entries of `float_subexp`, `float_minexp`,
+`float_maxexp` and `int(float_max)` (also compared with the real class attributes on every run). -/
+theorem tables :
+    (subexp binary16, minexp binary16, maxexp binary16, largest binary16) = (-23, -13, 16, 65504) ∧
+    (subexp binary32, minexp binary32, maxexp binary32, largest binary32) = (-148, -125, 128, 2 ^ 128 - 2 ^ 104) ∧
+    (subexp binary64, minexp binary64, maxexp binary64, largest binary64) = (-1073, -1021, 1024, 2 ^ 1024 - 2 ^ 971) := by
+  decide +kernel
+
+/-! ### the reference rounding `roundBits` is IEEE round-to-nearest-even -/
+
+/-- **roundV_canonical**: a finite rounding result `q·2^e` is a canonical member of the format: `q < 2^p`,
+`emin ≤ e ≤ emaxUlp`, and `q ≥ 2^(p-1)` (normal) or `e = emin` (subnormal). -/
+theorem roundV_canonical {f : Fmt} (v : Valid f) (man : Nat) (exp : Int) (q : Nat) (e : Int)
+    (h : roundV f man exp = .fin q e) :
+    q < 2 ^ f.p ∧ f.emin ≤ e ∧ e ≤ f.emaxUlp ∧ (2 ^ (f.p - 1) ≤ q ∨ e = f.emin) :=
+  roundV_canonical' v man exp q e h
+
+/-- **roundV_nearest**: no member `m'·2^e'` of the format (`m' < 2^p`, `e' ≥ emin`; any exponent, so also
+beyond the largest finite number) is strictly closer to `x = man·2^exp` than the rounding result.
+All three values are written in units of `2^E` for an arbitrary common `E` below the three exponents. -/
+theorem roundV_nearest {f : Fmt} (v : Valid f) (man : Nat) (exp : Int) (q : Nat) (e : Int)
+    (h : roundV f man exp = .fin q e) (m' : Nat) (e' : Int) (hm' : m' < 2 ^ f.p) (he' : f.emin ≤ e')
+    (E : Int) (h1 : E ≤ exp) (h2 : E ≤ e) (h3 : E ≤ e') :
+    |dyVal man exp E - dyVal q e E| ≤ |dyVal man exp E - dyVal m' e' E| :=
+  roundV_nearest' v man exp q e h m' e' hm' he' E h1 h2 h3
+
+/-- **roundV_tie_even**: if another member of the format is exactly as close, the result's significand is even. -/
+theorem roundV_tie_even {f : Fmt} (v : Valid f) (man : Nat) (exp : Int) (q : Nat) (e : Int)
+    (h : roundV f man exp = .fin q e) (m' : Nat) (e' : Int) (hm' : m' < 2 ^ f.p) (he' : f.emin ≤ e')
+    (E : Int) (h1 : E ≤ exp) (h2 : E ≤ e) (h3 : E ≤ e')
+    (hd : |dyVal man exp E - dyVal q e E| = |dyVal man exp E - dyVal m' e' E|)
+    (hne : dyVal q e E ≠ dyVal m' e' E) : q % 2 = 0 :=
+  roundV_tie_even' v man exp q e h m' e' hm' he' E h1 h2 h3 hd hne
+
+/-- **roundV_inf_iff**: the reference rounding overflows exactly from largest finite + half an ulp on. -/
+theorem roundV_inf_iff {f : Fmt} (v : Valid f) (man : Nat) (hm : man ≠ 0) (exp : Int) :
+    roundV f man exp = .inf ↔ dyLe (2 ^ (f.p + 1) - 1) (f.emaxUlp - 1) man exp :=
+  roundV_inf_iff' v hm exp
+
+/-- **decode_pack**: the bit pattern `pack` of a canonical result decodes (FP.decode) to exactly that value. -/
+theorem decode_pack {f : Fmt} (v : Valid f) (q : Nat) (e : Int)
+    (hq : q < 2 ^ f.p) (he : f.emin ≤ e) (he2 : e ≤ f.emaxUlp) (hc : 2 ^ (f.p - 1) ≤ q ∨ e = f.emin) :
+    decode f (pack f (.fin q e)) = .fin false q e :=
+  decode_pack' v q e hq he he2 hc
+
+/-- **identity**: the identity function through the backend with flushing off (stored flag falsy) returns
+every finite non-zero float unchanged — normal or subnormal, either sign. -/
+theorem identity {f : Fmt} (v : Valid f) (kw : Option PyVal) (dflt : PyVal) (hfl : effectiveFlush kw dflt = false)
+    (b : Nat) (hb : b < 2 ^ f.width) (s : Bool) (m : Nat) (e : Int) (hd : decode f b = .fin s m e) (hm : m ≠ 0) :
+    call f kw dflt 0 1 0 .id b 0 = some (.bits b) :=
+  identity' v kw dflt hfl b hb s m e hd hm
+
+/-! ### non-vacuity: concrete non-trivial instances meeting the hypotheses -/
+
+/-- `mpf2float_normal`: float32, 1 + 2^-24 + 2^-150 (174 bits ≥ p) rounds up to 1 + 2^-23 = 0x3F800001. -/
+example : binary32.minNormalBits ≤ roundBits binary32 (2 ^ 150 + 2 ^ 126 + 1) (-150) ∧
+    mpf2float binary32 .false (.fin false (2 ^ 150 + 2 ^ 126 + 1) (-150)) none .n = .bits 0x3F800001 := by
+  decide +kernel
+
+/-- the edge covered by `mpf2float_normal`: float16 `x = (2^12-1)·2^-26 <` smallest normal rounds to it. -/
+example : binary16.minNormalBits ≤ roundBits binary16 (2 ^ 12 - 1) (-26) ∧ dyLt (2 ^ 12 - 1) (-26) 1 (-14) ∧
+    mpf2float binary16 .false (.fin true (2 ^ 12 - 1) (-26)) none .n = .bits 0x8400 := by
+  decide +kernel
+
+/-- `overflow`: float16, 65520 = max + half ulp → +inf, while 65519 → 65504. -/
+example : dyLe (2 ^ 12 - 1) (binary16.emaxUlp - 1) 65520 0 ∧
+    mpf2float binary16 .false (.fin false 65520 0) none .n = .bits 0x7C00 ∧
+    mpf2float binary16 .false (.fin false 65519 0) none .n = .bits 0x7BFF := by
+  decide +kernel
+
+/-- `tiny`: float64, -(2^60+1)·2^-1136 < 2^-1075 → -0. -/
+example : dyLt (2 ^ 60 + 1) (-1136) 1 (binary64.emin - 1) ∧
+    mpf2float binary64 .false (.fin true (2 ^ 60 + 1) (-1136)) none .n = .bits 0x8000000000000000 := by
+  decide +kernel
+
+/-- `flush_partial`: float32 1e-40-ish subnormal with flushing → +0; `representable_exact` without. -/
+example : dyLt 71362 (-149) (2 ^ 25 - 1) (binary32.emin - 2) ∧
+    mpf2float binary32 .true (.fin false 71362 (-149)) none .n = .bits 0 ∧
+    mpf2float binary32 .false (.fin false 71362 (-149)) none .n = .bits 71362 := by
+  decide +kernel
+
+/-- `plumbing_partial`: `flush_subnormals=None` is explicit and falsy. -/
+example : PyVal.none.isUnspecified = false ∧ PyVal.none.truthy = false := by decide
+
+/-- `work_prec`: float32 with `extra_prec_multiplier=1/2, extra_prec=3` works at 24 + 12 + 3 = 39 bits. -/
+example : 0 ≤ extraPrec 24 1 2 3 ∧ workPrec 24 1 2 3 = 39 := by decide
+
+/-- `identity`: float16 subnormal 0x8003 with `flush_subnormals=False`. -/
+example : effectiveFlush (some .false) .false = false ∧ decode binary16 0x8003 = .fin true 3 (-24) ∧
+    call binary16 (some .false) .false 0 1 0 .id 0x8003 0 = some (.bits 0x8003) := by
+  decide +kernel
+
 end FAVerif.Props.C15
